@@ -111,6 +111,61 @@ def native_search():
             r = asyncio.run(run())
             if r:
                 return {"scenario": scenario, "observed": r}, n
+        # leaving through cancellation of the body's own task, while the saver is inside its first save (slow open) and while it sleeps
+        for when in ("during-slow-first-save", "while-saver-sleeps"):
+            path = os.path.join(d, "cancel-" + when + ".json")
+
+            async def cancelled_body(when=when, path=path):
+                import aiofiles.threadpool as tp
+                import time as _time
+                orig_open = tp.sync_open
+                if when == "during-slow-first-save":
+                    def slow_open(*a, **k):
+                        _time.sleep(0.05)
+                        return orig_open(*a, **k)
+                    tp.sync_open = slow_open
+                tr = native.make_transport()
+                gw = Gateway(tr, Config(persistence_file=path))
+                inside = asyncio.Event()
+
+                async def body():
+                    async with gw:
+                        from aiomysensors.model.node import Node
+                        gw.nodes[7] = Node(7, 17, "2.2")
+                        inside.set()
+                        await asyncio.sleep(3600)
+                try:
+                    before = len(asyncio.all_tasks())
+                    t = asyncio.create_task(body())
+                    await inside.wait()
+                    if when == "while-saver-sleeps":
+                        await asyncio.sleep(0.2)
+                    t.cancel()
+                    try:
+                        await t
+                    except asyncio.CancelledError:
+                        pass
+                    except BaseException as e:  # noqa: BLE001
+                        return f"{type(e).__name__} escaped the cancelled context"
+                    await asyncio.sleep(0.2)
+                    left = len(asyncio.all_tasks()) - before
+                    if left:
+                        return f"{left} background task(s) left running after the body's task was cancelled"
+                    with open(path) as f:
+                        text = f.read()
+                    try:
+                        saved = json.loads(text)
+                    except ValueError:
+                        return f"the file left behind is not the final registry (unparseable: {text[:80]!r})"
+                    if "7" not in saved:
+                        return f"final registry not saved after the body's task was cancelled ({saved})"
+                    return None
+                finally:
+                    tp.sync_open = orig_open
+            n += 1
+            r = asyncio.run(cancelled_body())
+            if r:
+                return {"scenario": f"body task cancelled {when}", "observed": r}, n
         # every built-in transport kind: an MQTT connect whose k-th subscription is refused must leave no receive task behind
         import aiomysensors.transport.mqtt as mq
         from aiomqtt import MqttError
